@@ -393,6 +393,12 @@ func drawFaces(t *rapid.T) []faceDef {
 	for i, n := 0, rapid.IntRange(0, 2).Draw(t, "nStatic"); i < n; i++ {
 		add(rapid.SampledFrom(staticPool).Draw(t, "staticFont"), 1)
 	}
+	if idx, err := loadClassIndex(); err == nil && rapid.IntRange(0, 1).Draw(t, "classSlot") == 0 {
+		// a font chosen by coverage class (feature, lookup type, script, table ...), not by family
+		class := rapid.SampledFrom(classNames).Draw(t, "class")
+		pr := idx.Probes[rapid.SampledFrom(idx.Classes[class]).Draw(t, "probe")]
+		add(pr.Font.File, rapid.IntRange(1, 2).Draw(t, "nClassFaces"))
+	}
 	if rapid.IntRange(0, 3).Draw(t, "alternatesFont") == 0 {
 		add(rapid.SampledFrom(altPool).Draw(t, "altFont"), rapid.IntRange(1, 2).Draw(t, "nAltFaces"))
 	}
@@ -405,6 +411,12 @@ func drawFaces(t *rapid.T) []faceDef {
 func drawShapeOp(t *rapid.T, m *shaperMachine) shaperOp {
 	slot := rapid.IntRange(0, len(m.faces)-1).Draw(t, "slot")
 	pf := m.pfs[slot]
+	if ps := fontProbes(pf.Ref.File); len(ps) > 0 && rapid.IntRange(0, 9).Draw(t, "probeInput") < 6 {
+		// an input known to exercise one of the font's features / lookups / tables
+		op := classIdx.Probes[rapid.SampledFrom(ps).Draw(t, "probe")].shaperOp(slot)
+		op.Size = rapid.SampledFrom(shapeSizes).Draw(t, "size")
+		return op
+	}
 	text := drawText(t, pf, ev.Scale(16, 40))
 	op := shaperOp{Kind: "shape", Slot: slot, Text: text, RunEnd: len(text)}
 	if len(text) > 0 && rapid.IntRange(0, 9).Draw(t, "subRun") < 3 {
